@@ -112,9 +112,12 @@ def kw_of(u: str, sel) -> dict:
         al = {}
         for i, n in enumerate(nodes):
             if sel(("alias", n)):
-                al[n] = ALIASES[i % len(ALIASES)]
+                # the alias text: a fixed text per module, or the module's own full name (an identity alias, which
+                # keeps a sub-tree unabbreviated below an aliased ancestor)
+                al[n] = n if sel(("ident", n)) else ALIASES[i % len(ALIASES)]
         if sel(("alias", "<missing>")):
-            al[MISSING.get(u, nodes[-1] + ".nope")] = "M"
+            mname = MISSING.get(u, nodes[-1] + ".nope")
+            al[mname] = mname if sel(("ident", "<missing>")) else "M"
         if u in IMPLICIT and IMPLICIT[u]["level_limit"] is not None and sel(("alias", "<too-deep>")):
             # a module that was scanned but lies below the level limit is not a module of the architecture
             al[TOO_DEEP[u]] = "D"
@@ -174,7 +177,7 @@ def observe_spacing(ev, nodes, kw):
 def keys_of(u: str) -> list:
     nodes = nodes_of(u)
     extra = [(("alias", "<too-deep>"), 2)] if u in TOO_DEEP else []
-    return [(("opt", o), 2) for o in ("aliases", "spacing", "node_size", "ax")] + [(("alias", n), 2) for n in nodes] + [(("alias", "<missing>"), 2)] + extra
+    return [(("opt", o), 2) for o in ("aliases", "spacing", "node_size", "ax")] + [(("alias", n), 2) for n in nodes] + [(("ident", n), 2) for n in nodes] + [(("alias", "<missing>"), 2), (("ident", "<missing>"), 2)] + extra
 
 
 def instances(tier: str) -> list[dict]:
@@ -249,7 +252,7 @@ def run(tier: str, only: str | None = None) -> int:
         "kernels": "module name <= 5 chars, aliased names <= 4 chars, well-formed dotted names over {a,b,.}; alias strings <= 2 (one alias) / <= 1 (two aliases) arbitrary characters",
         "universes": {u: UNIVERSES[u] for u in UNIVERSES},
         "implicit_universes": IMPLICIT,
-        "alias_strings": ALIASES,
+        "alias_strings": ALIASES + ["<the module's own full name> (symbolic bit per aliased module)"],
         "histories": "two consecutive visualize calls on one architecture object; per call: alias present per module (first 3 modules), one of two alias texts per module, spacing (symbolic bits)",
         "options": ["aliases present/absent", "alias per module (one bit each)", "alias for a missing module", "spacing", "node_size", "ax"],
     }
